@@ -57,25 +57,80 @@ func freedField(fn *ssa.Function, v ssa.Value) (field string, elem bool) {
 func flagGuard(fn *ssa.Function, in ssa.Instruction, field string, want bool) bool {
 	for _, b := range fn.Blocks {
 		for _, x := range b.Instrs {
-			if ld, ok := x.(*ssa.UnOp); ok && ld.Op == token.MUL && recvFieldOf(fn, ld.X) == field {
-				if guardedBy(in, ld, want) {
-					// no store to the flag between the test and the instruction
-					clean := true
-					for _, st := range storesTo(fn, field) {
-						if instrDominates(ld, st) && reachesWithout(st, in, func(ssa.Instruction) bool { return false }) && !instrDominates(in, st) {
-							if c, isC := st.Val.(*ssa.Const); !isC || c.Value == nil || (c.Value.String() == "true") != want {
-								clean = false
-							}
+			ld, ok := x.(*ssa.UnOp)
+			if !ok || ld.Op != token.MUL || recvFieldOf(fn, ld.X) != field {
+				continue
+			}
+			// the tests that establish flag == want: the load itself (bool), or comparisons with constants
+			type test struct {
+				cond  ssa.Value
+				truth bool
+			}
+			var tests []test
+			if isBoolType(ld.Type()) {
+				tests = append(tests, test{ld, want})
+			} else if ld.Referrers() != nil {
+				for _, rf := range *ld.Referrers() {
+					bo, isBo := rf.(*ssa.BinOp)
+					if !isBo || (bo.Op != token.EQL && bo.Op != token.NEQ) {
+						continue
+					}
+					k, isC := constInt(bo.Y)
+					if !isC {
+						continue
+					}
+					// a two-valued mode: zero stands for "false"; comparing with the other value decides just as well
+					isZero := k == 0
+					// (ld == k) true  ⇒ flag set iff k != 0
+					eqTruth := bo.Op == token.EQL
+					// want=false (flag is zero): (ld == 0) true, (ld != 0) false, (ld == K) false, (ld != K) true
+					if want == !isZero {
+						tests = append(tests, test{bo, eqTruth})
+					} else {
+						tests = append(tests, test{bo, !eqTruth})
+					}
+				}
+			}
+			for _, t := range tests {
+				if !guardedBy(in, t.cond, t.truth) {
+					continue
+				}
+				// no store to the flag between the test and the instruction
+				clean := true
+				for _, st := range storesTo(fn, field) {
+					if instrDominates(ld, st) && reachesWithout(st, in, func(ssa.Instruction) bool { return false }) && !instrDominates(in, st) {
+						if set, isC := flagConst(st.Val); !isC || set != want {
+							clean = false
 						}
 					}
-					if clean {
-						return true
-					}
+				}
+				if clean {
+					return true
 				}
 			}
 		}
 	}
 	return false
+}
+
+func isBoolType(t types.Type) bool {
+	b, ok := t.Underlying().(*types.Basic)
+	return ok && b.Kind() == types.Bool
+}
+
+// flagConst: v is a constant of a flag type; set reports whether it stands for "true" (non-zero).
+func flagConst(v ssa.Value) (set bool, ok bool) {
+	c, isC := v.(*ssa.Const)
+	if !isC || c.Value == nil {
+		return false, false
+	}
+	if c.Value.Kind() == constant.Bool {
+		return constant.BoolVal(c.Value), true
+	}
+	if k, isInt := constInt(v); isInt {
+		return k != 0, true
+	}
+	return false, false
 }
 
 func checkC09(P *Program, r *Result, tier string) {
@@ -202,7 +257,7 @@ func checkC09(P *Program, r *Result, tier string) {
 							}
 						}
 						if name == "bufReadOnly" {
-							if c, ok := st.Val.(*ssa.Const); ok && c.Value != nil && c.Value.String() == "true" {
+							if set, ok := flagConst(st.Val); ok && set {
 								ro = true
 							}
 						}
@@ -221,7 +276,7 @@ func checkC09(P *Program, r *Result, tier string) {
 					n++
 					ok := false
 					for _, s2 := range storesTo(fn, "bufReadOnly") {
-						if c, isC := s2.Val.(*ssa.Const); isC && c.Value != nil && c.Value.String() == "true" && s2.Block() == st.Block() {
+						if set, isC := flagConst(s2.Val); isC && set && s2.Block() == st.Block() {
 							ok = true
 						}
 					}
@@ -367,7 +422,7 @@ func ctorOwnerRule(P *Program, r *Result, rule string) {
 								}
 							}
 						}
-						if c3, isC := fv.(*ssa.Const); isC && c3.Value != nil && c3.Value.String() == "true" {
+						if set, isC := flagConst(fv); isC && set {
 							okFlag, detail = true, ""
 						} else {
 							okFlag = false
@@ -391,8 +446,7 @@ func ownerFlagRule(P *Program, r *Result, rule string) {
 		}
 		// the ownership flag may only be cleared for a buffer this reader has just allocated itself
 		for _, st := range storesTo(fn, "bufReadOnly") {
-			k, isC := st.Val.(*ssa.Const)
-			if !isC || k.Value == nil || constant.BoolVal(k.Value) {
+			if set, isC := flagConst(st.Val); !isC || set {
 				continue
 			}
 			fa := A.fa(fn)
